@@ -637,7 +637,10 @@ def _eval_table(ctx, kind, a, ENUMS):
                                    ('bloom-false-positive-empty-bucket' if start < so else
                                     ('full-hash-collision' if same_full else 'bucket-collision')))
             else:
-XX
+                first = next((i for i in range(so, n) if names[i] == q), None)
+                if first is not None and any(names[i] != q and (hs[i][1] | 1) == (h | 1) and hs[i][1] % nb == h % nb
+                                             for i in range(so, first)):
+                    cls = 'present-after-equal-hash'
         else:
             h = qh[j][0]
             if not p:
